@@ -114,7 +114,7 @@ static Verdict exec_C15(const Case &c) {
       }
       if (!par[t][s].ok)
         v.fail("thread " + std::to_string(t) + " step " + std::to_string(s) + " (" + prog[t][s].s("op") + ") is wrong when run concurrently: " + par[t][s].msg + " (correct sequentially)");
-      else if (par[t][s].outhash != seq[t][s].outhash)
+      else if (par[t][s].outhash != seq[t][s].outhash || par[t][s].rawhash != seq[t][s].rawhash)
         v.fail("thread " + std::to_string(t) + " step " + std::to_string(s) + " (" + prog[t][s].s("op") + "): result differs from the sequential execution");
       v.out(par[t][s].outhash);
     }
@@ -172,7 +172,7 @@ static Verdict exec_C16(const Case &c) {
   Verdict v;
   std::vector<int> th = parse_intlist(c.s("threads", "1,2,4"));
   if (!vf_cfg_have_openmp()) th = {1};
-  u64 h0 = 0;
+  u64 h0 = 0, raw0 = 0;
   bool first = true;
   Case base = c;
   for (int t : th) {
@@ -186,8 +186,10 @@ static Verdict exec_C16(const Case &c) {
       v.fail("with " + std::to_string(t) + " OpenMP threads: " + r.msg);
       break;
     }
-    if (first) h0 = r.outhash;
-    else if (r.outhash != h0) {
+    if (first) {
+      h0 = r.outhash;
+      raw0 = r.rawhash;
+    } else if (r.outhash != h0 || r.rawhash != raw0) {
       v.fail("result with " + std::to_string(t) + " OpenMP threads differs from the result with " + std::to_string(th[0]));
       break;
     }
